@@ -927,8 +927,9 @@ func verifyFunction(g *G, fn *ssa.Function, spec *FuncSpec) *FuncResult {
 	if spec != nil {
 		fr.frameCheck(spec, out)
 		for _, a := range spec.AtAsserts {
-			if fr.atHits[a] == 0 {
-				fr.bindErr(a.Clause, fmt.Errorf("unbound:no call of %s in %s", a.Callee, fr.key))
+			if fr.atHits[a] == 0 && !a.Assume {
+				// the call this clause is attached to no longer exists in the function: the clause fails
+				e.oblige("at", a.Callee+":"+a.Clause.Label, out.pc, "false", a.Clause.Props, fn.Pos(), "no call of "+a.Callee+" remains in "+fr.key)
 			}
 		}
 		if e.ownerOn() {
